@@ -376,6 +376,7 @@ func (c *Ctx) compareResult(ex *gosx.Exec, st *eqStats, id string, gv gosx.Value
 func (c *Ctx) exploreProg(p *Prog, st *eqStats, solver string) *gosx.Report {
 	return c.Eng.ExploreWith(func(ex *gosx.Exec) {
 		ex.InitPackage(c.Eng.Pkg)
+		ex.User["monitor_prog"] = p.ID
 		goatArgs, refArgs, in := c.mkInputs(ex, p)
 		if p.Assume != nil {
 			p.Assume(ex, in)
@@ -484,7 +485,15 @@ func (c *Ctx) runEquiv(progs []*Prog, solver string, agg *Agg, st *eqStats) {
 	c.mu.Unlock()
 	parallel(len(todo), 8, func(i int) {
 		f := todo[i]
-		ok, detail := c.replayProg(f.p, f.f.Model)
+		var ok bool
+		var detail map[string]interface{}
+		handled := false
+		if c.replayOverride != nil {
+			ok, detail, handled = c.replayOverride(f.p, f.f)
+		}
+		if !handled {
+			ok, detail = c.replayProg(f.p, f.f.Model)
+		}
 		c.mu.Lock()
 		c.replays++
 		c.mu.Unlock()
